@@ -171,3 +171,51 @@ func VH_C08_watch_event() {
 	zz.Assert(len(ei.cachedObjects) <= 1, "one_cache_entry_per_object")
 	zz.Reach("end")
 }
+
+// vhConfusables: JSON values that differ as JSON but look alike under a loose
+// text form (quotes dropped, elements separated by spaces, "" vs nothing).
+func vhConfusable(i int) any {
+	switch i {
+	case 0:
+		return "1"
+	case 1:
+		return float64(1)
+	case 2:
+		return "true"
+	case 3:
+		return true
+	case 4:
+		return []any{"a b"}
+	case 5:
+		return []any{"a", "b"}
+	case 6:
+		return []any{""}
+	case 7:
+		return []any{}
+	case 8:
+		return map[string]any{"k": "x l:y"}
+	}
+	return map[string]any{"k": "x", "l": "y"}
+}
+
+// VH_C08_confusable: the checksum of a projection separates any two different
+// JSON values, also those whose loose text forms coincide.
+func VH_C08_confusable() {
+	i0 := zz.Len("value0", 0, 9)
+	i1 := zz.Len("value1", 0, 9)
+	mk := func(i int) *unstructured.Unstructured {
+		return &unstructured.Unstructured{Object: map[string]any{
+			"apiVersion": "v1", "kind": "Pod",
+			"metadata": map[string]any{"name": "p", "namespace": "ns"},
+			"v":        vhConfusable(i),
+		}}
+	}
+	r0, err0 := applyFilter("{a: .v}", jq.NewFilter(), nil, mk(i0))
+	r1, err1 := applyFilter("{a: .v}", jq.NewFilter(), nil, mk(i1))
+	zz.Assert(err0 == nil && err1 == nil, "filter_applies")
+	if err0 != nil || err1 != nil {
+		return
+	}
+	zz.Assert((i0 == i1) == (r0.Metadata.Checksum == r1.Metadata.Checksum), "checksum_separates_different_projections")
+	zz.Reach("end")
+}
